@@ -85,6 +85,86 @@ def ars_bytes(pdu: str, more: bool, ack: bool, priority: bool, control: bool, ev
     return len(body).to_bytes(2, "big") + body
 
 
+# ------------------------------------------------------------------------------------------------ reference decoders
+# The oracle of props/c16.py decodes the library's wire image with these (layout knowledge only) and compares the result
+# with the fields the message was built from.  Unlike a byte-for-byte comparison with the builders above this accepts
+# every valid encoding of the same fields (e.g. a second sequence-number header that is present although not needed).
+
+
+class LayoutError(Exception):
+    pass
+
+
+def tms_parse(b: bytes) -> dict:
+    n = int.from_bytes(b[:2], "big")
+    body = b[2 : 2 + n]
+    if len(body) != n or len(b) != n + 2 or n < 2:
+        raise LayoutError("length prefix does not delimit the message")
+    first = body[0]
+    control, typ = (first >> 4) & 1, first & 0x0F
+    pdu = {v: k for k, v in TMS_TYPES.items()}.get((control, typ))
+    if pdu is None:
+        raise LayoutError(f"unknown PDU type {control}/{typ:04b}")
+    alen = body[1]
+    i = 2 + alen
+    if i > len(body):
+        raise LayoutError("address longer than the message")
+    out = {"pdu": pdu, "more": bool(first & 0x80), "ack": bool(first & 0x40), "reserved": bool(first & 0x20), "address": body[2:i], "capability": None, "sn": None, "encoding": 0, "message": None}
+    if first & 0x80:
+        if pdu == "availability":
+            out["capability"] = body[i] & 3
+            i += 1
+        else:
+            h1 = body[i]
+            i += 1
+            h2 = None
+            if h1 & 0x80:
+                h2 = body[i]
+                i += 1
+                if h2 & 0x80:
+                    raise LayoutError("third optional header")
+                out["encoding"] = h2 & 0x1F
+            out["sn"] = tms_split_sn(h1, h2)
+    if pdu == "text":
+        out["message"] = body[i:]
+    elif i != len(body):
+        raise LayoutError(f"{len(body) - i} unexpected trailing octets")
+    return out
+
+
+def ars_parse(b: bytes) -> dict:
+    n = int.from_bytes(b[:2], "big")
+    body = b[2 : 2 + n]
+    if len(body) != n or len(b) != n + 2 or n < 1:
+        raise LayoutError("length prefix does not delimit the message")
+    first = body[0]
+    pdu = {v: k for k, v in ARS_TYPES.items()}.get(first & 0x0F)
+    if pdu is None:
+        raise LayoutError(f"unknown PDU type {first & 0x0F:04b}")
+    out = {"pdu": pdu, "more": bool(first & 0x80), "ack": bool(first & 0x40), "priority": bool(first & 0x20), "control": bool(first & 0x10),
+           "event": None, "encoding": None, "device": None, "user": None, "password": None, "second": None}
+    i = 1
+    if pdu in ("device_reg", "user_reg"):
+        if out["more"]:
+            out["event"], out["encoding"] = (body[i] >> 5) & 3, body[i] & 0x1F
+            i += 1
+        for k in ("device", "user", "password"):
+            ln = body[i]
+            if i + 1 + ln > len(body):
+                raise LayoutError(f"{k} longer than the message")
+            out[k] = body[i + 1 : i + 1 + ln].decode("utf-8")
+            i += 1 + ln
+    elif pdu == "response":
+        if out["more"]:
+            out["second"] = body[i]
+            i += 1
+    rest = body[i:]
+    if rest not in (b"", CSBK_TRAILER):
+        raise LayoutError(f"unexpected trailing octets {rest.hex()}")
+    out["csbk"] = rest == CSBK_TRAILER
+    return out
+
+
 def _selfcheck():
     assert tms_bytes("availability", True, False, b"", capability=1) == bytes.fromhex("0003D00001")
     assert tms_bytes("ack", False, False, b"") == bytes.fromhex("00021F00")
@@ -98,6 +178,15 @@ def _selfcheck():
     assert ars_bytes("query", False, True, True, True) == bytes.fromhex("000174")
     assert ars_bytes("response", False, False, True, True) == bytes.fromhex("00013F")
     assert ars_bytes("response", False, False, True, True, csbk=True) == bytes.fromhex("00033F1080")
+    # decoders on the captured messages
+    t = tms_parse(bytes.fromhex("000DE00101954461006800 6F006A00".replace(" ", "")))
+    assert (t["pdu"], t["sn"], t["encoding"], t["address"], t["message"].decode("utf-16-le")) == ("text", 85, 4, b"\x01", "ahoj")
+    assert tms_parse(bytes.fromhex("00049F009520"))["sn"] == 53 and tms_parse(bytes.fromhex("00021F00"))["sn"] is None
+    assert tms_parse(bytes.fromhex("0003D00001"))["capability"] == 1
+    a = ars_parse(bytes.fromhex("0010F5000231310939393939393939393900"))
+    assert (a["pdu"], a["event"], a["device"], a["user"], a["password"], a["csbk"]) == ("user_reg", 0, "11", "999999999", "", False)
+    assert ars_parse(bytes.fromhex("0007F0200231310000"))["event"] == 1
+    assert ars_parse(bytes.fromhex("00033F1080"))["csbk"] is True and ars_parse(bytes.fromhex("0002BF01"))["second"] == 1
 
 
 _selfcheck()
